@@ -29,7 +29,10 @@ release(). READ-LOOP - every `while` loop of the reader modules that reads the f
 code: 0, it iterates with `for line in fil`; a built-in canary is checked at
 every run). END-FLAG-TERM - Scanner._is_end_flag answers positively only on paths where the
 line is known to end with a newline (a cut inside the value of the flag leaves
-an unterminated last line). Not decided: other hangs; equality of a surviving edition with the complete
+an unterminated last line). TIME-FIRST - the times of an edition are set by the first line that gives them
+(setdefault); the only overwriting store into self.times[kind][batch] is under
+`if self.partial` (a line after the edition never changes its results).
+Not decided: other hangs; equality of a surviving edition with the complete
 listing; exceptions originating in library calls outside the primitive
 table; the ParseResult post-processing layer (its raise sites validate
 programmer-supplied types, not listing content).
@@ -46,6 +49,7 @@ def check(ctx):
     ctx.run(parsers.check_lock_pair)
     ctx.run(parsers.check_read_loop)
     ctx.run(parsers.check_end_flag_terminated)
+    ctx.run(parsers.check_time_first)
     ctx.run(patterns.check_patterns, ID)
 
 
